@@ -7,11 +7,14 @@ import (
 
 	"verif/sim/kernel"
 	"verif/sim/keyset"
+	"verif/sim/props"
 )
 
 // worlds maps a property id to the simulated world that decides it.
 var worlds = map[string]kernel.WorldFunc{
 	"C13": keyset.Run,
+	"C04": props.RunC04,
+	"C10": props.RunC10,
 }
 
 // TestSim is the single entry point of the test binary; the driver script
